@@ -18,7 +18,8 @@ func init() { core.Register("C07", run) }
 func run(c *core.Ctx) {
 	// cedar logs every handshake step at INFO through the default logger
 	slog.SetDefault(slog.New(slog.NewTextHandler(io.Discard, &slog.HandlerOptions{Level: slog.LevelError})))
-	c.Assume("servers are real cedar ServerHandshake endpoints whose SessionCache the harness replaces to model a restart; a broken exchange = the server closes after the client's first message")
+	c.Assume("servers are real cedar ServerHandshake endpoints whose SessionCache the harness replaces to model a restart; a broken exchange is realised in two ways: the server closes after the client's first message, or it reads the message and never answers while the client's context deadline (80 ms) fires")
+	c.Assume("behaviours that drop sessions are also run with the cached sessions marked SetInherited(true) (the mark of sessions imported from the parent daemon or a claim)")
 	c.Assume("the statement does not oblige a client to reuse a session: a full handshake where reuse was allowed is a permitted divergence (counted), not a failure")
 	if sessreal.ReplayFile(c, "C07") {
 		return
@@ -68,7 +69,7 @@ func run(c *core.Ctx) {
 	scs = append(edge, maximal(scs[nGen:])...)
 	rng := c.Rand("c07")
 	var jobs []sessreal.Job
-	shaped := 0
+	shaped, stalled, inherited := 0, 0, 0
 	for si, sc := range scs {
 		if si%1999 == 0 {
 			c.Sample(sc.H)
@@ -80,6 +81,21 @@ func run(c *core.Ctx) {
 				p := rng.Intn(8)
 				jobs = append(jobs, sessreal.Job{Kind: "C07", Sc: sc, V07: sessreal.Variant07{SwapTags: p&1 != 0, SwapAddrs: p&2 != 0, SwapCmds: p&4 != 0, API: "handshake", AddrShape: shape}})
 				shaped++
+			}
+		}
+		if si < nEdge {
+			// second realisation of a broken exchange: the server stalls, the client's deadline fires
+			if hasStep(sc, "BreakNext", "") {
+				p := rng.Intn(8)
+				jobs = append(jobs, sessreal.Job{Kind: "C07", Sc: sc, V07: sessreal.Variant07{SwapTags: p&1 != 0, SwapAddrs: p&2 != 0, SwapCmds: p&4 != 0, API: "handshake", Break: "stall"}})
+				stalled++
+			}
+			// session origin: the cached sessions carry the inherited mark; every way of
+			// dropping a session (failed resumption, Invalidate, expiry + sweep) must still work
+			if hasStep(sc, "CliInvalidate", "") || hasStep(sc, "Handshake", "resume_notfound") || hasStep(sc, "Handshake", "resume_broken") || hasStep(sc, "Expire", "") {
+				p := rng.Intn(8)
+				jobs = append(jobs, sessreal.Job{Kind: "C07", Sc: sc, V07: sessreal.Variant07{SwapTags: p&1 != 0, SwapAddrs: p&2 != 0, SwapCmds: p&4 != 0, API: "handshake", Origin: "inherited"}})
+				inherited++
 			}
 		}
 		if c.Thorough() {
@@ -100,6 +116,8 @@ func run(c *core.Ctx) {
 		jobs = append(jobs, sessreal.Job{Kind: "C07", Sc: sc, V07: sessreal.Variant07{SwapTags: p&1 != 0, SwapAddrs: p&2 != 0, SwapCmds: p&4 != 0, API: api}})
 	}
 	c.Set("address_shape_executions", shaped)
+	c.Set("stalled_exchange_executions", stalled)
+	c.Set("inherited_origin_executions", inherited)
 	var t sessreal.Totals
 	sessreal.ReplayAll(c, jobs, &t)
 	c.Set("abstract_behaviours", len(scs))
@@ -113,6 +131,16 @@ func run(c *core.Ctx) {
 	c.Set("permitted_divergences", t.Diverged)
 	c.Set("exhaustive", c.Thorough())
 	c.Set("rule", "behaviours = paths of the bounded behaviour graph of Next07 (ClientHandshake over tags {none,A,B} x 2 servers x 3 commands, Restart, BreakNext, Expire, Invalidate, Sweep) enumerated by TLC from Gen_SessionCache (mode C07): quick = one path per EDGE of the depth-4 graph (VIEW without history) plus seeded random walks of depth 7, thorough = every depth-4 behaviour; names are introduced in canonical order and the replayer applies the tag / address / command permutations (all 8 in thorough, one seeded in quick); every generated behaviour that talks to both servers is additionally executed with the two servers named by sinful strings that share host:port and differ only in ?sock=, in CCBID, or in a custom parameter (each name wired to its own real server); each behaviour is executed with real ClientHandshake (and client.ConnectAndAuthenticateWithConfig over TCP loopback for a share) against real servers; after every step the wire request (resumption asked? which id), the handshake result and LookupByCommand for all 18 triples / Lookup for every session are compared with the model; non-trivial = more than one step")
+}
+
+// hasStep: the behaviour contains a step with this action (and outcome, if given).
+func hasStep(sc *sessreal.Scenario, act, out string) bool {
+	for _, e := range sc.H {
+		if e.Step.Act == act && (out == "" || e.Step.Out == out) {
+			return true
+		}
+	}
+	return false
 }
 
 // usesBothServers: the behaviour performs handshakes with both model servers.
